@@ -2,9 +2,9 @@ package main
 
 import (
 	"fmt"
-	"sort"
 	"go/token"
 	"go/types"
+	"sort"
 	"strings"
 
 	"golang.org/x/tools/go/ssa"
@@ -162,6 +162,14 @@ func isBuiltinCall(in ssa.Instruction, name string) (*builtinCall, bool) {
 }
 
 func runTrace(p *Prog, root *ssa.Function, sp *Spec) *Tracer {
+	// a bound method value used as a closure (g.countDown): the method is the root
+	if root != nil && root.Synthetic != "" && strings.HasSuffix(root.Name(), "$bound") {
+		if m := boundMethod(root); m != nil {
+			if f := p.SSA.FuncValue(m); f != nil && len(f.Blocks) > 0 {
+				root = f
+			}
+		}
+	}
 	tr := NewTracer(p, sp, root)
 	tr.Run()
 	return tr
